@@ -114,6 +114,12 @@ func (g *fnGen) execBlock(b *ssa.BasicBlock, st *state) {
 		case *ssa.ChangeType:
 			g.vals[x] = g.val(st, x.X)
 		case *ssa.Convert:
+			if isFloat(x.X.Type()) && isInteger(x.Type()) {
+				if lo, hi, ok := intRange(x.Type().Underlying().(*types.Basic)); ok {
+					fv := S("f2i", g.val(st, x.X))
+					g.oblige(st, "conv", g.anchor(x.Pos(), "float-to-int"), x.Pos(), "", And(S("<=", IntLit(lo), fv), S("<=", fv, IntLit(hi))), "float to integer conversion is in range (out-of-range results are implementation-defined in Go)")
+				}
+			}
 			g.vals[x] = g.define(x.Name(), g.R.sortOf(x.Type()), g.convert(st, g.val(st, x.X), x.X.Type(), x.Type()))
 		case *ssa.MultiConvert:
 			g.vals[x] = g.freshConst("mconv", g.R.sortOf(x.Type()))
